@@ -825,10 +825,11 @@ void File::uncompressedFile2CompressedFile() {
     LogContainer logContainer;
 
     /* copy data into LogContainer */
-    logContainer.uncompressedFile.resize(m_uncompressedFile.defaultLogContainerSize());
+    const uint32_t logContainerSize = m_uncompressedFile.defaultLogContainerSize(); // read once: it may be changed meanwhile
+    logContainer.uncompressedFile.resize(logContainerSize);
     m_uncompressedFile.read(
         reinterpret_cast<char *>(logContainer.uncompressedFile.data()),
-        m_uncompressedFile.defaultLogContainerSize());
+        logContainerSize);
     logContainer.uncompressedFileSize = static_cast<uint32_t>(m_uncompressedFile.gcount());
     logContainer.uncompressedFile.resize(logContainer.uncompressedFileSize);
 
